@@ -261,7 +261,9 @@ def process_integrals(ck, rng, table):
         x = np.array([[float(np.quantile(smp[:, 0], 0.6)), float(np.quantile(smp[:, 1], 0.7))]])
         c = float(model.cdf(x)[0])
         ref, _ = integrate.nquad(lambda y, xx: float(model.pdf([[xx, y]])[0]), [(0, x[0, 1]), (0, x[0, 0])])
-        if abs(c - ref) > 1e-6 + 1e-6 * abs(ref):
+        # both numbers are nested adaptive quadratures of a density with kinks (integration order differs):
+        # agreement is expected within quadrature error only
+        if abs(c - ref) > 2e-4:
             bad.append(("cdf_is_integral_of_pdf", f"cdf {c!r} quadrature {ref!r} at {x.tolist()}"))
         # marginal consistency for the conditional variable (Monte-Carlo icdf vs quadrature cdf)
         dim = 1
